@@ -20,7 +20,7 @@ from .concrete import RES, _services_bool
 from dznpy.adv_shell.common import FacilitiesOrigin
 
 
-def driver_source(info: Dict, pc, cycles: int, n_out: int, clients: List[str]) -> str:
+def driver_source(info: Dict, pc, cycles: int, n_out: int, clients: List[str], variant: int = 0) -> str:
     mc = pc.multiclient
     m: fam.Model = info['model']
     origin = info['case'].origin
@@ -28,8 +28,10 @@ def driver_source(info: Dict, pc, cycles: int, n_out: int, clients: List[str]) -
     itf = next(i for i in m.itfs if i.name == prt.itf)
     claim = next(e for e in itf.events if e.name == mc.claim_event_name)
     release = next(e for e in itf.events if e.name == mc.release_event_name)
-    works = [e for e in itf.events if e.direction == 'in' and e.name not in (claim.name, release.name)][:1]
-    outs = [e for e in itf.events if e.direction == 'out'][:1]
+    works = [e for e in itf.events if e.direction == 'in' and e.name not in (claim.name, release.name)]
+    outs = [e for e in itf.events if e.direction == 'out']
+    works = [works[variant % len(works)]] if works else []
+    outs = [outs[variant % len(outs)]] if outs else []
     grant = RES[mc.claim_granting_reply_value.items[-1]]
     refuse = (grant + 1) % 3
     sc = D.Script(info, mc, origin == FacilitiesOrigin.CREATE, _services_bool(origin))
@@ -139,6 +141,7 @@ def driver_source(info: Dict, pc, cycles: int, n_out: int, clients: List[str]) -
 #include <set>
 #include <thread>
 #include <mutex>
+#include <shared_mutex>
 #include <condition_variable>
 #include <chrono>
 #include <algorithm>
@@ -196,13 +199,13 @@ static void vf_run_schedule(const std::vector<std::string>& schedule, const std:
         return true;
     };
     for (auto& t : all) { int i = vf_index_of(t); auto t0 = std::chrono::steady_clock::now();
-        while (vf_get_state(i) != 1 && std::chrono::steady_clock::now() - t0 < std::chrono::seconds(5)) std::this_thread::sleep_for(std::chrono::microseconds(50)); }
+        while (vf_get_state(i) != 1 && std::chrono::steady_clock::now() - t0 < std::chrono::seconds(30)) std::this_thread::sleep_for(std::chrono::microseconds(50)); }
     for (auto& t : schedule)
     {
         int i = vf_index_of(t);
         if (vf_get_state(i) == 2) continue;
         vf_grant(i);
-        wait_parked(i, 5000);
+        wait_parked(i, 30000);
     }
     for (int round = 0; round < 60; ++round)
     {
@@ -247,7 +250,7 @@ static void vf_run_schedule(const std::vector<std::string>& schedule, const std:
 {
     using namespace std::chrono_literals;
     if (schedule.empty()) return;
-    auto wait_parked = [&](const std::string& t, int ms = 5000) {
+    auto wait_parked = [&](const std::string& t, int ms = 30000) {
         std::unique_lock<std::mutex> lk(vf_m);
         return vf_cv.wait_for(lk, std::chrono::milliseconds(ms), [&] { return vf_state.count(t) && vf_state[t] != 0; });
     };
@@ -281,12 +284,21 @@ static void vf_set_free() { vf_free = true; }
 #include <dzn/runtime.hh>
 // std::mutex as used by the generated code becomes a gated wrapper
 namespace std { struct vf_mutex { std::mutex real; void lock() { vf_gate("lock-wait"); real.lock(); ++vf_held; } void unlock() { --vf_held; real.unlock(); } bool try_lock() { bool b = real.try_lock(); if (b) ++vf_held; return b; } }; }
+namespace std {
+struct vf_recursive_mutex { std::recursive_mutex real; void lock() { vf_gate("lock-wait"); real.lock(); ++vf_held; } void unlock() { --vf_held; real.unlock(); } bool try_lock() { bool b = real.try_lock(); if (b) ++vf_held; return b; } };
+struct vf_shared_mutex { std::shared_mutex real; void lock() { vf_gate("lock-wait"); real.lock(); ++vf_held; } void unlock() { --vf_held; real.unlock(); } bool try_lock() { bool b = real.try_lock(); if (b) ++vf_held; return b; }
+    void lock_shared() { vf_gate("lock-wait"); real.lock_shared(); ++vf_held; } void unlock_shared() { --vf_held; real.unlock_shared(); } bool try_lock_shared() { bool b = real.try_lock_shared(); if (b) ++vf_held; return b; } };
+}
 #define mutex vf_mutex
+#define recursive_mutex vf_recursive_mutex
+#define shared_mutex vf_shared_mutex
 struct OtherService { int x = 0; };
 #define private public
 #include "@SOURCE@"
 #undef private
 #undef mutex
+#undef recursive_mutex
+#undef shared_mutex
 static dzn::pump* g_pump = nullptr;
 static bool g_claimed = false;
 static @ENC@& g_enc(@SHELL@& s) { return s.m_encapsulee; }
@@ -305,13 +317,14 @@ int main(int argc, char** argv)
     return head + '\n'.join(body) + '\n    return 0;\n}\n'
 
 
-def build(info: Dict, pc, prog_dir: str, cycles: int, n_out: int, clients: List[str], tsan: bool = False) -> Tuple[str, str]:
+def build(info: Dict, pc, prog_dir: str, cycles: int, n_out: int, clients: List[str], tsan: bool = False,
+          variant: int = 0) -> Tuple[str, str]:
     """-> (executable path | '', compiler diagnostics)"""
     tagname = 'drv_threads_tsan' if tsan else 'drv_threads'
     src = os.path.join(prog_dir, tagname + '.cc')
     exe = os.path.join(prog_dir, tagname)
     with open(src, 'w', encoding='utf-8') as fh:
-        fh.write(driver_source(info, pc, cycles, n_out, clients))
+        fh.write(driver_source(info, pc, cycles, n_out, clients, variant))
     cmd = ['g++', '-std=c++17', '-O0', '-g', '-w', '-I', MOCK_INC, '-I', prog_dir, src, '-o', exe, '-pthread']
     if tsan:
         cmd[3:3] = ['-fsanitize=thread', '-DVF_TSAN']
@@ -331,6 +344,8 @@ def run(exe: str, schedule: List[str], timeout: int = 60) -> Tuple[str, str, str
     except subprocess.TimeoutExpired as exc:
         out = exc.stdout.decode('utf-8', 'replace') if isinstance(exc.stdout, bytes) else (exc.stdout or '')
         return 'timeout', out, ''
+    if proc.returncode != 0 and 'ThreadSanitizer' not in proc.stderr:
+        return 'crash', proc.stdout, proc.stderr
     return 'ok', proc.stdout, proc.stderr
 
 
@@ -398,7 +413,9 @@ def run_mutex_wrapped(info: Dict, prog_dir: str) -> Tuple[str, List[str]]:
 #include <iostream>
 #include <thread>
 #include <atomic>
+#include <chrono>
 #include <mutex>
+#include <shared_mutex>
 #include <memory>
 #include <optional>
 #include <functional>
@@ -408,21 +425,31 @@ def run_mutex_wrapped(info: Dict, prog_dir: str) -> Tuple[str, List[str]]:
 int main()
 {
     @SUP@::MutexWrapped<int> w;
+    auto free_now = [&] { bool got = false; std::thread probe([&] { got = w.m_mutex.try_lock(); if (got) w.m_mutex.unlock(); }); probe.join(); return got; };
+    std::atomic<bool> entered{false};
+    std::thread second;
     {
         auto p = w();
         *p = 5;
-        if (w.m_mutex.try_lock()) { std::cout << "FAIL mutex not held while the pointer is alive" << std::endl; w.m_mutex.unlock(); }
+        bool got = false;
+        std::thread probe([&] { got = w.m_mutex.try_lock(); if (got) w.m_mutex.unlock(); }); probe.join();
+        if (got) std::cout << "FAIL mutex not held while the pointer is alive" << std::endl;
         if (p.get() != &w.m_protectee) std::cout << "FAIL operator() does not hand out the protected value" << std::endl;
+        // a second thread asking for the pointer must block until the first pointer is gone
+        second = std::thread([&] { auto q = w(); entered = true; });
+        std::this_thread::sleep_for(std::chrono::milliseconds(300));
+        if (entered) std::cout << "FAIL a second thread is handed the pointer while the first one is alive" << std::endl;
     }
-    if (w.m_mutex.try_lock()) w.m_mutex.unlock(); else std::cout << "FAIL lock not released at scope exit" << std::endl;
+    second.join();
+    if (!free_now()) std::cout << "FAIL lock not released at scope exit" << std::endl;
     {
         auto p = w();
         p.reset();
-        if (w.m_mutex.try_lock()) w.m_mutex.unlock(); else std::cout << "FAIL lock not released on explicit reset" << std::endl;
+        if (!free_now()) std::cout << "FAIL lock not released on explicit reset" << std::endl;
     }
-    if (w.m_mutex.try_lock()) w.m_mutex.unlock(); else std::cout << "FAIL lock held after reset and scope exit" << std::endl;
-    std::atomic<int> inside{0}; std::atomic<bool> overlap{false};
-    auto worker = [&] { for (int i = 0; i < 20000; ++i) { auto p = w(); if (inside.fetch_add(1) != 0) overlap = true; *p += 1; inside.fetch_sub(1); } };
+    if (!free_now()) std::cout << "FAIL lock held after reset and scope exit" << std::endl;
+    std::atomic<int> inside{0}; std::atomic<bool> overlap{false}; std::atomic<int> ready{0};
+    auto worker = [&] { ++ready; while (ready < 2) { } for (int i = 0; i < 20000; ++i) { auto p = w(); if (inside.fetch_add(1) != 0) overlap = true; *p += 1; inside.fetch_sub(1); } };
     { auto p = w(); *p = 0; }
     std::thread a(worker), b(worker); a.join(); b.join();
     if (overlap) std::cout << "FAIL two threads inside at once" << std::endl;
@@ -437,7 +464,11 @@ int main()
                           capture_output=True, text=True, timeout=600, check=False)
     if proc.returncode != 0:
         return 'compile-error: ' + proc.stderr[:600], []
-    run = subprocess.run([exe], capture_output=True, text=True, timeout=120, check=False)
+    try:
+        run = subprocess.run([exe], capture_output=True, text=True, timeout=120, check=False)
+    except subprocess.TimeoutExpired as exc:
+        out = exc.stdout.decode('utf-8', 'replace') if isinstance(exc.stdout, bytes) else (exc.stdout or '')
+        return 'ok', [line[5:] for line in out.splitlines() if line.startswith('FAIL ')] + ['the test program hangs']
     if 'MW done' not in run.stdout:
         return 'crash: ' + (run.stdout + run.stderr)[-400:], []
     return 'ok', [line[5:] for line in run.stdout.splitlines() if line.startswith('FAIL ')]
